@@ -31,7 +31,7 @@ Theorem C02_exit_gate :
     smiles_valid (get_smiles_model tree_only tree_full full merged) = true.
 Proof.
   intros to tf f mg. unfold get_smiles_model, gate.
-  destruct (negb to && negb (Bool.eqb tf f)); [intro H; exfalso; apply H; reflexivity|].
+  destruct (negb to && f && negb tf); [intro H; exfalso; apply H; reflexivity|].
   destruct (smiles_valid mg) eqn:E; [intros _; exact E | intro H; exfalso; apply H; reflexivity].
 Qed.
 Print Assumptions C02_exit_gate.
